@@ -1573,3 +1573,25 @@ package engine
 //@   at-call renamedCopy requires[a-copy-of-the-template-as-instantiated-by-this-solution] a0 == template && a2 == env
 //@   at-call append requires[answers-are-kept-in-solution-order] a0 == answers && len(a1) == 1 && a1[0] == c
 //@   ensures[asks-for-the-next-solution] cerr == nil ==> result == falsePromise
+
+//@ ---------------------------------------------------------------- the binding store and unification (C02)
+
+//@ type Env immutable
+
+//@ func Unify
+//@   property C02
+//@   nosafety
+//@   unify-result-checked
+//@   onk[only-after-a-successful-unification] true
+//@ func UnifyWithOccursCheck
+//@   property C02
+//@   nosafety
+//@   unify-result-checked
+//@ func SubsumesTerm
+//@   property C02
+//@   nosafety
+//@   unify-result-checked
+//@ func (*VM).exec
+//@   property C02
+//@   trusted
+//@   unify-result-checked
